@@ -159,6 +159,35 @@ def run(chk, tier, seed, replay):
     chk.cov["distinct_nontrivial"] += nontrivial
     chk.cov["traces_validated_against_impl"] += len(cases)
 
+    # ---------------- (a') the whole attribute through FmtAttribute::parse (cfg(derive_more_verif) hook): which arguments
+    # carry an alias (`name = expr`, whatever follows the `=` and however it is spaced) and which are plain identifiers
+    reqs = [{"key": str(i), "tokens": '"", ' + c["_text"]} for i, c in enumerate(cases)]
+    obs = vlib.run_inproc("parse-attr", reqs)
+    for i, c in enumerate(cases):
+        o = obs[str(i)]
+        if c.get("kds") or c.get("known"):
+            continue          # lists the recorded finding (KD2: binary `|`) splits differently: judged in (a)
+        chk.cov["evaluations"] += 1
+        key = "attr:" + c["_text"]
+        if o["outcome"] == "panic":
+            chk.deviation(key, f"FmtAttribute::parse panicked: {o.get('msg')}", case={"tokens": c["tokens"], "text": c["_text"]},
+                          expected="parsed", observed=o, tags={"kind": "panic"})
+            continue
+        if o["outcome"] != "ok":
+            if not c.get("kds"):
+                chk.deviation(key, f"a well-formed argument list is rejected: {o.get('msg')}", case={"tokens": c["tokens"], "text": c["_text"]},
+                              expected="parsed", observed=o, tags={"kind": "attr_rejected", "kd": list(c.get("kds", []))})
+            continue
+        want = [(bool(a["alias"]), a["form"] == "ident") for a in c["args"]]
+        got = [(x["alias"] is not None, bool(x["ident"])) for x in o["args"]]
+        if len(got) != len(want):
+            continue          # a different split: the subject of (a) above (and of the recorded finding KD2)
+        if got != want:
+            chk.deviation(key, "FmtAttribute::parse disagrees with format_args! on which arguments are named (`name = ..`) / are plain "
+                          f"identifiers: got {got}, the grammar says {want} (alias, identifier) per argument",
+                          case={"tokens": c["tokens"], "text": c["_text"]}, expected=want, observed=got, tags={"kind": "alias"})
+    chk.cov["traces_validated_against_impl"] += len(cases)
+
     # ---------------- (b) end to end through the attribute path
     reqs = []
     meta = {}
